@@ -80,7 +80,9 @@ def se_unit(name, file, qualname, cls, setup, post, loop_specs=None, inline=(), 
         res["lib"] = sorted(getattr(E, "used_lib", set()))
         base = baseline_abstraction().get(name)
         if base is not None:
-            new = sorted(set(res["abstracted"]) - set(base))
+            # footprint = calls abstracted to unknown values + library contracts relied upon; a counter-model found on a tree whose
+            # footprint grew may rest on a contract that was never exercised (or is too weak) for this unit: undecided, not a violation
+            new = sorted((set(res["abstracted"]) | {"lib:" + x for x in res["lib"]}) - set(base))
             if new:
                 res["new_abstraction"] = new
         obs = []
